@@ -87,6 +87,7 @@ pub struct Chain {
     pub rewards: BTreeMap<(String, String), BTreeMap<String, u128>>,
     pub withdraw_addr: BTreeMap<String, String>,
     pub pay_lag: bool,
+    pub max_entries: usize,
     pub can_redel: BTreeMap<String, bool>,
     pub unbonding_time: u64,
     pub bond_denom: String,
@@ -161,6 +162,7 @@ impl Chain {
             rewards: Default::default(),
             withdraw_addr: Default::default(),
             pay_lag: false,
+            max_entries: 0,
             can_redel: Default::default(),
             unbonding_time: 100,
             bond_denom: "usei".into(),
@@ -499,6 +501,10 @@ impl Chain {
                 if *d < amount.amount.u128() || amount.amount.is_zero() {
                     return Err("staking: invalid undelegate".into());
                 }
+                if self.max_entries > 0 && self.unbondings.iter().filter(|u| u.delegator == sender && u.validator == validator).count() >= self.max_entries {
+                    return Err("staking: too many unbonding entries".into());
+                }
+                let d = self.delegations.entry((sender.into(), validator.clone())).or_default();
                 *d -= amount.amount.u128();
                 self.unbondings.push(Unbonding { delegator: sender.into(), validator, amount: amount.amount.u128(), completion: self.time + self.unbonding_time });
                 Ok(())
@@ -597,6 +603,7 @@ pub struct Cfg {
     pub init_vals: Vec<u64>,
     pub prefix: Vec<Value>,
     pub pay_lag: bool,
+    pub max_entries: usize,
 }
 
 pub fn dec_of(v: &Value) -> Decimal {
@@ -630,6 +637,7 @@ impl Cfg {
             init_vals: v["InitVals"].as_array().unwrap().iter().map(|x| x.as_u64().unwrap()).collect(),
             prefix: v["Prefix"].as_array().cloned().unwrap_or_default(),
             pay_lag: v["PayLag"].as_bool().unwrap_or(false),
+            max_entries: if v["MaxEntries"].as_bool().unwrap_or(false) { 7 } else { 0 },
         }
     }
     pub fn accts(&self) -> Vec<String> {
@@ -656,6 +664,7 @@ pub fn setup(cfg: &Cfg) -> Chain {
     let mut c = Chain::new();
     c.time = cfg.t0;
     c.pay_lag = cfg.pay_lag;
+    c.max_entries = cfg.max_entries;
     c.unbonding_time = cfg.unbonding;
     c.price = cfg.price;
     c.instantiate(Kind::Hub, "hub", "owner", to_json_binary(&basset::hub::InstantiateMsg {
